@@ -1,8 +1,8 @@
 package props
 
 import (
-	"go/constant"
 	"fmt"
+	"go/constant"
 	"go/token"
 	"strings"
 
@@ -113,7 +113,8 @@ func checkC14(e *Env) {
 	pd := e.fn("signedexchange/mice.(Encoding).parseDigestHeader")
 	e.requireGates("GATE", pd, gate.Outcome{Kind: gate.ErrNil, Idx: 1}, noCfg,
 		gate.Cmp("P.algorithm", "*", token.EQL, "call:(mice.Encoding).ContentEncoding(param:enc)"),
-		gate.CallOK("P.base64", "(*base64.Encoding).DecodeString", "call:(mice.Encoding).base64Encoding(param:enc)", "*"))
+		gate.CallOK("P.base64", "(*base64.Encoding).DecodeString", "call:(mice.Encoding).base64Encoding(param:enc)",
+			`{call:strings.SplitN(param:digestHeaderValue,const:"=",const:2)[const:1]|call:strings.Cut(param:digestHeaderValue,const:"=")#1}`))
 
 	// empty payload
 	{
@@ -507,4 +508,3 @@ func flagOf(c *ssa.Call) string {
 	}
 	return val
 }
-
